@@ -132,13 +132,10 @@ def r0_model(ctx, visitors):
         if len(loops) == 1:
             lp = loops[0]
             r = Renderer(f, inline_locals=False)
-            init = r.s(lp.get('init'))
-            cond = r.r(lp.get('cond'))
-            inc = r.r(lp.get('inc'))
+            from ..loops import loop_range
+            rng = loop_range(f, lp)
             body = r.s(lp.get('body'))
-            var = init.split(' ')[1] if init.startswith('(var ') else '?'
-            if init == '(var %s 0)' % var and cond == '(< l:%s 65536)' % var and inc in ('(++ l:%s)' % var, '(post++ l:%s)' % var) \
-                    and 'push_back on l:' in body and '(call Decode<%s> l:%s)' % (v, var) in body:
+            if rng and rng[1:] == (0, 65536, 1) and 'push_back on l:' in body and '(call Decode<%s> l:%s)' % (v, rng[0]) in body:
                 ok = True
         if not ok:
             ctx.report(R, f, f['body'], 'GetDecoderTable<%s>' % v,
